@@ -442,7 +442,9 @@ fn check_point(cx: &mut Ctx, s: &dyn DynSampler, cached_spec: Option<f64>, ri: u
     let lam = meta.lambda;
     match momtrop::gamma::inverse_gamma_lr(&s.dod(), &x[2 * e - 2], 50, &5.0) {   // the sampler's own degree of divergence
         // (iteration count and stopping tolerance are the implementation's choice: agreement to 1e-7, not bit for bit)
-        Ok(want) => if !(rel_err(lam, want) <= 1e-7) { cx.viol("C12", format!("lambda {} is not inverse_gamma_lr(dod, x[2E-2]) = {}", lam, want), ri, x, json!({})); },
+        // compared where the quantile is well defined numerically (true quantile >= 1e-13, the accuracy domain of C12);
+        // below it the iteration does not converge and its result depends on the iteration cap
+        Ok(want) => if x[2 * e - 2] >= crate::checks::gamma::reg_lower_gamma(s.dod(), 1e-13) * (1.0 + 1e-6) && !(rel_err(lam, want) <= 1e-7) { cx.viol("C12", format!("lambda {} is not inverse_gamma_lr(dod, x[2E-2]) = {}", lam, want), ri, x, json!({})); },
         Err(_) => cx.viol("C12", "sample succeeded although the Gamma quantile of its coordinate is an error".into(), ri, x, json!({})),
     }
     if !(lam > 0.0 && lam.is_finite()) { cx.viol("C12", format!("lambda = {} used by a sample is not finite and positive", lam), ri, x, json!({})); }
